@@ -35,6 +35,15 @@ def handleGL (fs : List (List String)) : Option String :=
       | some s => some s!"S {storyOut s} | {";".intercalate (cs.map storyOut)}"
       | none => some "NONE"
     | _ => some "bad-request"
+  | [["glsr"], [md], tree, pat] =>
+    match parseG tree with
+    | some (t, []) =>
+      let p : List (Nat × Int) := pat.map fun e =>
+        match e.splitOn ":" with
+        | [a, b] => (nat! a, int! b)
+        | _ => (0, 0)
+      some ("R " ++ ";".intercalate ((glsRCandidates (int! md) t p).map storyOut))
+    | _ => some "bad-request"
   | _ => none
 
 end Verif.Driver
